@@ -450,7 +450,11 @@ func (c *fnCtx) stmt(s ast.Stmt, k func() term) term {
 					t := c.goType(vs.Type)
 					z := c.zeroOf(t, v)
 					if x := c.declare(n, t); x != nil {
-						pre = append(pre, fnBind{pat: x.name, e: z, isLet: true})
+						pat := x.name
+						if z == "[]" {
+							pat += " : " + varType(x)
+						}
+						pre = append(pre, fnBind{pat: pat, e: z, isLet: true})
 					}
 				} else if len(vs.Values) == len(vs.Names) {
 					e, t := c.expr(vs.Values[i], &pre)
@@ -1204,7 +1208,7 @@ func (c *fnCtx) loop(ls *loopSpec, k func() term) term {
 	rtype := "res " + paren(stType)
 	var extra []*fnType
 	if hasRet {
-		rtype = "res (ctl (" + stType + ") (" + c.retType() + "))"
+		rtype = "res (ctl " + paren(stType) + " " + paren(c.retType()) + ")"
 		extra = append(extra, c.fn.results...)
 		for _, x := range c.retVars() {
 			extra = append(extra, x.typ)
